@@ -228,6 +228,13 @@ def single_lattice(rng, tier):
                     upper=dict(model='6node', vf_coolant=0.4,
                                convection_factor=0.8))
     one('opt-dd-unequal-walls-regions', t, gap_model='flow')
+    # the low-flow convection approximation on a double duct with unequal
+    # walls, heat crossing the outer wall
+    one('opt-dd-unequal-walls-lowflow-approx',
+        bundle_type(2, nd=2, wall=[0.002, 0.005],
+                    bypass_gap_flow_fraction=0.1),
+        gap_model='flow', flow=flow_for(bundle_type(2), 0.012),
+        setup={'conv_approx': True, 'conv_approx_dz_cutoff': 0.01})
     one('opt-3duct-unequal-walls-lowfi',
         bundle_type(2, nd=3, wall=[0.004, 0.003, 0.0015],
                     use_low_fidelity_model=True, low_fidelity_model='simple'),
